@@ -73,3 +73,35 @@ def corpus(which: int) -> bool:
         return str(b) == out
     finally:
         xhlib.install_stub()
+
+
+MSD_ALPHABET = "#:;/\\\n aN"
+
+
+def chars_cycle(text: str, strict: bool) -> bool:
+    """
+    pre: len(text) <= 3
+    pre: all(ch in MSD_ALPHABET for ch in text)
+    pre: not (len(text) > 0 and text[len(text) - 1] == chr(92))
+    post: _
+    """
+    # character level, tiny texts, real lexer and serializer: whenever the text loads, saving and reloading gives an equal
+    # simfile and a second save reproduces the first byte for byte
+    from msdparser import MSDParserError
+    import simfile
+    xhlib.install_real()
+    try:
+        try:
+            a = simfile.loads(text, strict=strict)
+        except (MSDParserError, ValueError):
+            return True   # the text does not load
+        for ch in a.charts:
+            if type(ch).__name__ == "SSCChart" and "NOTES" not in ch and "NOTES2" not in ch:
+                return True
+        out = str(a)
+        b = type(a)(string=out)
+        if list(b.items()) != list(a.items()) or len(b.charts) != len(a.charts):
+            return False
+        return str(b) == out
+    finally:
+        xhlib.install_stub()
